@@ -36,6 +36,10 @@ def normX {α : Type} (fold : Str → Str) : Except Err α → Except Err α
 def normP {α : Type} (fold : Str → Str) (r : Except Err α × List (Event N)) : Except Err α × List (Event N) :=
   (normX fold r.1, r.2.map (Event.foldN fold))
 
+theorem normX_ok {α : Type} (fold : Str → Str) (v : α) : normX fold (.ok v) = .ok v := rfl
+theorem normX_error {α : Type} (fold : Str → Str) (e : Err) :
+    normX (α := α) fold (.error e) = .error (e.foldN fold) := rfl
+
 theorem normX_ok_iff {α : Type} (fold : Str → Str) (r : Except Err α) (v : α) :
     normX fold r = .ok v ↔ r = .ok v := by
   cases r with
@@ -61,7 +65,7 @@ theorem rightBool_norm (fold : Str → Str) (tl : List (Event N)) (m : R N) :
 theorem binVal_norm (fold : Str → Str) (op : Op) (a b : Value N) :
     normX fold (binVal op a b) = binVal op a b := by
   cases op <;> simp only [binVal, normX] <;>
-    cases a <;> cases b <;> simp only [Value.add, Value.arith, Value.xor, normX, Err.foldN]
+    cases a <;> cases b <;> simp only [Value.add, Value.arith, Value.xor, Err.foldN]
 
 theorem bin_norm (fold : Str → Str) (op : Op) (l r : R N) :
     normP fold (binModel op l r) = binModel op (normP fold l) (normP fold r) := by
@@ -74,7 +78,7 @@ theorem bin_norm (fold : Str → Str) (op : Op) (l r : R N) :
       cases r1 with
       | ok rv =>
         cases op <;> simp only [binModel, normP, hb, rightBool, if_true, if_false, Bool.false_eq_true, binVal_norm] <;>
-          simp only [normX, List.map_append]
+          simp only [normX, List.map_append, hb, if_true, if_false, Bool.false_eq_true]
       | error e =>
         cases e <;> cases op <;> simp only [binModel, normP, normX, hb, rightBool, List.map_append, if_true, if_false,
           Bool.false_eq_true, Err.foldN]
@@ -93,8 +97,8 @@ theorem tern_norm (fold : Str → Str) (op : Op) (c m r : R N) :
   cases op <;> try rfl
   cases c1 with
   | ok cv =>
-    simp only [ternModel, normP, normX]
-    split <;> trace_state
+    cases hb : Value.asBool cv <;>
+      simp only [ternModel, normP, normX_ok, hb, List.map_append, if_true, if_false, Bool.false_eq_true]
   | error e => rfl
 
 end Slac
